@@ -150,7 +150,12 @@ def run(ck, prog, ctx):
                         sig.append(tuple(sorted(sides2(pv.of_operand(hb, a)))))
                 sigs.append(tuple(sig))
             common = max(set(sigs), key=sigs.count)
-            odd = [(sites_[i], sg) for i, sg in enumerate(sigs) if sg != common]
+            # a helper that computes `one side without the other` is legitimately called in both orientations (added = new \\ old, removed =
+            # old \\ new): the mirror image of the common signature is a sibling, not a deviation (which orientation feeds which accessor is
+            # the ROLE rule's question); a site that names ONE side twice is neither
+            sw_ = {"lhs": "rhs", "rhs": "lhs", "old": "new", "new": "old"}
+            mirror = tuple(tuple(sorted(sw_.get(x, x) for x in part)) for part in common)
+            odd = [(sites_[i], sg) for i, sg in enumerate(sigs) if sg != common and sg != mirror]
             if any(any(x for x in sg) for sg in sigs):
                 ck.ob("KIND", "sibling-sites/%s/%s" % (hb.short, prog.bodies[cid].short), not odd, "%s calls %s %d times; the old / new sides of the arguments %s" % (hb.short, prog.bodies[cid].short, len(sites_), "agree at every site: %s" % (list(common),) if not odd else
                       "DIFFER at line %s: %s where the other sites have %s" % (odd[0][0][1].line, list(odd[0][1]), list(common))), where=hb.where(odd[0][0][1].line if odd else sites_[0][1].line))
